@@ -67,8 +67,25 @@ def _contract(draw):
             if not ts:
                 break
             src = draw(st.sampled_from(ts))
-            how = draw(st.sampled_from(["equal", "negated", "unrelated", "zero"]))
+            how = draw(st.sampled_from(["equal", "negated", "unrelated", "zero", "small-close", "small-close-coef"]))
             neg = {k: -v for k, v in src[0].items()}
+            if how.startswith("small-close"):
+                # small numbers that are close in absolute terms (1e-6..9e-6) but different at 4 significant digits:
+                # a correct printer (relative tolerance) must not fold them
+                base = r4(draw(st.floats(1e-4, 9e-3)))
+                delta = draw(st.integers(2, 9)) * 1e-6
+                if how == "small-close":
+                    src[1] = base
+                    t = [neg, r4(draw(st.sampled_from([1, -1])) * base + delta)]
+                else:
+                    v0 = sorted(src[0])[0]
+                    src[0][v0] = base
+                    neg = {k: -v for k, v in src[0].items()}
+                    neg[v0] = r4(-base + delta)
+                    t = [neg, draw(st.sampled_from([src[1], -src[1]]))]
+                pairs.append(how)
+                ts.insert(draw(st.integers(0, len(ts))), t)
+                continue
             if how == "equal":
                 c = abs(src[1]) + (1 if src[1] == 0 else 0)
                 src[1] = c
@@ -79,7 +96,10 @@ def _contract(draw):
                 src[1] = 0.0
                 t = [neg, 0.0]
             else:
-                t = [neg, draw(_num(cls, True)) + abs(src[1]) + 1]
+                # clearly different from +-constant of the partner (the printer folds constants within 1e-5 relative)
+                t = [neg, abs(draw(_num(cls, True))) + abs(src[1]) * draw(st.sampled_from([1.5, 2, 3])) + 1]
+                if cls == "dec4":
+                    t[1] = r4(t[1])
             pairs.append(how)
             ts.insert(draw(st.integers(0, len(ts))), t)
         return ts, pairs
